@@ -763,12 +763,333 @@ const SERVER_TEXTS: &[(&str, &str)] = &[
     ("It is fine. It is an test of teh thing.\n\nAnother paragraph has a mistaek in it.\n", "mistaek"),
 ];
 
+// ---------------------------------------------------------------------------------------------
+// w25: document families and edits the quantifier names and the generators above do not write
+// (Markdown with real markup, non-ASCII in front of the lints, CRLF / lone CR, blank, long,
+// repeated constructs, lints at offsets 0..3, dialect spellings; edits that prepend a paragraph /
+// a heading / non-ASCII / a CRLF line, append a paragraph, delete a far word, delete the text in
+// front), the JS path in Markdown, on all dialects, with clear → import (twice) and with edits, and
+// the server path on a Markdown document next to a second open document, with two ignores in a row,
+// the code actions after the ignore, and an appended paragraph.
+// ---------------------------------------------------------------------------------------------
+
+const W25_PRE: &[(&str, &str)] = &[
+    ("This is fine.\n\n", "prepend-paragraph"),
+    ("# A title here\n\n", "prepend-heading"),
+    ("😀 é — ", "prepend-non-ascii"),
+    ("A first line is here.\r\n", "prepend-crlf-line"),
+    ("- an item\n- another item\n\n", "prepend-list"),
+    ("Hello there. ", "prepend"),
+];
+
+/// as `random_edit`, with the kinds it does not write
+fn w25_edit(rng: &mut Rng, doc: &Document, l: &Lint, sents: &[String]) -> Edit {
+    let n = doc.get_source().len();
+    let lo = l.span.start.saturating_sub(2);
+    let hi = l.span.end.max(l.span.start + 4);
+    match rng.below(6) {
+        0..=2 => {
+            let (with, what) = *rng.pick(W25_PRE);
+            Edit { a: 0, b: 0, with: with.to_string(), what }
+        }
+        3 => Edit { a: n, b: n, with: format!("\n\n{}", rng.pick(sents)), what: "append-paragraph" },
+        _ => {
+            let toks = doc.get_tokens();
+            let far: Vec<usize> = (0..toks.len())
+                .filter(|&k| {
+                    let t = &toks[k];
+                    let left_ok = t.span.end + 3 <= lo && toks.get(k + 1).is_some_and(|u| u.span.end + 2 <= lo);
+                    let right_ok = t.span.start >= hi + 3 && k > 0 && toks[k - 1].span.start >= hi + 2;
+                    t.kind.is_word() && (left_ok || right_ok)
+                })
+                .collect();
+            if far.is_empty() {
+                return Edit { a: n, b: n, with: "\n\nThe end.".to_string(), what: "append-paragraph" };
+            }
+            let t = &toks[*rng.pick(&far)];
+            Edit { a: t.span.start, b: t.span.end, with: String::new(), what: "delete-far-word" }
+        }
+    }
+}
+
+/// the core path (K + O) over the w25 families
+fn w25_core(sess: &mut Session, env: &mut Env, rng: &mut Rng, sents: &[String], ndocs: usize) {
+    for n in 0..ndocs {
+        let (text, markdown, fam) = crate::c16::w25_text(rng, sents, n);
+        let (doc, lints) = lints_of(env, &text, markdown);
+        let Some(doc) = doc else { continue };
+        sess.count(&format!("w25:doc:{}", fam));
+        if text.chars().any(|c| (c as u32) > 0xFFFF) {
+            sess.count("w25:doc-has-astral");
+        } else if !text.is_ascii() {
+            sess.count("w25:doc-has-non-ascii");
+        }
+        if text.contains('\r') {
+            sess.count("w25:doc-has-cr");
+        }
+        if text.chars().count() > 400 {
+            sess.count("w25:doc-longer-than-400");
+        }
+        if lints.is_empty() {
+            sess.count("w25:doc-without-lints");
+            // an empty ignore list on a document without lints: the degenerate case, once per family member
+            eval(sess, env, &text, markdown, &[], &Mode::ExportImport, None, "w25");
+            continue;
+        }
+        let ids = random_subset(rng, lints.len());
+        let mode = match rng.below(3) {
+            0 => Mode::ExportImport,
+            1 => Mode::Append(rng.below(ids.len() + 1)),
+            _ => Mode::Direct,
+        };
+        eval(sess, env, &text, markdown, &ids, &mode, None, "w25");
+        for _ in 0..2 {
+            let i = rng.below(lints.len());
+            let e = w25_edit(rng, &doc, &lints[i], sents);
+            let mode = if rng.chance(1, 4) { Mode::ExportImport } else { Mode::Direct };
+            eval(sess, env, &text, markdown, &[i], &mode, Some(&e), "w25");
+        }
+        // the reverse direction: the lint is ignored deep in the document, then the text in front is deleted
+        let (pre, _) = *rng.pick(W25_PRE);
+        let text2 = format!("{}{}", pre, text);
+        let plen = pre.chars().count();
+        let (_, lints2) = lints_of(env, &text2, markdown);
+        let behind: Vec<usize> = (0..lints2.len()).filter(|i| lints2[*i].span.start >= plen).collect();
+        if !behind.is_empty() {
+            let i = *rng.pick(&behind);
+            let e = Edit { a: 0, b: plen, with: String::new(), what: "delete-prefix" };
+            eval(sess, env, &text2, markdown, &[i], &Mode::Direct, Some(&e), "w25");
+        }
+    }
+}
+
+/// The JS path beyond `eval_js`: Markdown, every dialect, clear → import (twice: `append`), and the
+/// edit clause — the ignored lint stays hidden when text is put in front of / behind the document,
+/// as long as its flagged text and window tokens are the same (judged on harper-core's tokens).
+fn w25_js(sess: &mut Session, env: &Env, text: &str, md: bool, dialect: &str, pick: usize) {
+    use harper_wasm::{Dialect as WDialect, Language, Linter as WLinter};
+    let wd = match dialect {
+        "British" => WDialect::British,
+        "Australian" => WDialect::Australian,
+        "Canadian" => WDialect::Canadian,
+        _ => WDialect::American,
+    };
+    let lang = if md { Language::Markdown } else { Language::Plain };
+    let key = |l: &harper_wasm::Lint| (l.span().start, l.span().end, l.message());
+    let inp = json!({"kind": "js-w25", "text": text, "md": md, "dialect": dialect, "pick": pick});
+    let mut js = WLinter::new(wd);
+    let Ok(first) = guarded(|| js.lint(text.to_string(), lang)) else { return };
+    if first.is_empty() {
+        sess.count("w25:js:no-lints");
+        return;
+    }
+    let k = pick % first.len();
+    let firstk: Vec<_> = first.iter().map(key).collect();
+    let flagged: Vec<String> = first.iter().map(|l| l.get_problem_text()).collect();
+    let target = firstk[k].clone();
+    let Some(l) = first.into_iter().nth(k) else { return };
+    if guarded(|| js.ignore_lint(text.to_string(), l)).is_err() {
+        sess.fail("js-ignore-panic", "Linter::ignore_lint panicked".into(), inp, None);
+        return;
+    }
+    let Ok(second) = guarded(|| js.lint(text.to_string(), lang)) else { return };
+    let got: Vec<_> = second.iter().map(key).collect();
+    sess.o();
+    sess.count(&format!("w25:js:{}:{}", if md { "markdown" } else { "plain" }, dialect));
+    // clause 1: gone; clause 2: a lint with another message or another flagged text is still there; nothing new
+    let others_stay = firstk.iter().enumerate().filter(|(i, w)| w.2 != target.2 || flagged[*i] != flagged[k]).all(|(_, w)| got.contains(w));
+    if got.contains(&target) || !others_stay || !got.iter().all(|g| firstk.contains(g)) {
+        sess.fail("js-ignore-not-exact", format!("ignore_lint({:?}) in {}: lint() went from {:?} to {:?}", target, if md { "Markdown" } else { "plain text" }, firstk, got), inp, None);
+        return;
+    }
+    if got.len() + 1 == firstk.len() && !got.is_empty() {
+        sess.nontrivial(&format!("w25js|{}|{}|{}", text, md, k));
+    }
+    // clause 3 on the same object: export → clear → import, imported twice
+    let exported = js.export_ignored_lints();
+    js.clear_ignored_lints();
+    let ok = js.import_ignored_lints(exported.clone()).is_ok() && js.import_ignored_lints(exported.clone()).is_ok();
+    let again = js.export_ignored_lints();
+    let hs = |j: &str| -> Vec<u64> {
+        let v: Value = serde_json::from_str(j).unwrap_or(Value::Null);
+        let mut h: Vec<u64> = v["context_hashes"].as_array().map(|a| a.iter().filter_map(|x| x.as_u64()).collect()).unwrap_or_default();
+        h.sort();
+        h
+    };
+    let Ok(third) = guarded(|| js.lint(text.to_string(), lang)) else { return };
+    sess.o();
+    if !ok || hs(&again) != hs(&exported) || third.iter().map(key).collect::<Vec<_>>() != got {
+        sess.fail("js-export-import-differs", format!("export → clear → import (twice): the list went from {} to {}, lint() from {:?} to {:?}", exported, again, got, third.iter().map(key).collect::<Vec<_>>()), inp, None);
+        return;
+    }
+    // clause 4: text in front of / behind the document
+    let doc1 = env.parse(text, md);
+    for (pre, suf) in [("Hello there. ", ""), ("", " Thanks a lot."), ("This is fine.\n\n", "\n\nAnother paragraph is here."), ("😀 ", "")] {
+        let t2 = format!("{}{}{}", pre, text, suf);
+        let d = pre.chars().count();
+        let probe1 = Lint { span: harper_core::Span::new(target.0, target.1), ..Default::default() };
+        let probe2 = Lint { span: harper_core::Span::new(target.0 + d, target.1 + d), ..Default::default() };
+        let Ok(doc2) = guarded(|| env.parse(&t2, md)) else { continue };
+        let (w1, w2) = (windows(&doc1, &probe1), windows(&doc2, &probe2));
+        let untouched = (0..3).all(|i| w1[i] == w2[i]) && !w1.iter().flatten().any(is_quote);
+        if !untouched {
+            sess.count("w25:js:edit-touches-window");
+            continue;
+        }
+        let Ok(r) = guarded(|| js.lint(t2.clone(), lang)) else { continue };
+        sess.o();
+        sess.count("w25:js:edit-untouched");
+        if r.iter().any(|x| key(x) == (target.0 + d, target.1 + d, target.2.clone())) {
+            sess.fail(
+                "js-edit-unstable",
+                format!("{:?} was ignored; with {:?} in front and {:?} behind the document its flagged text and window tokens are the same, yet lint() reports it again", target, pre, suf),
+                inp,
+                None,
+            );
+            return;
+        }
+    }
+}
+
+const W25_MD: &str = "# Notes\n\nThere is *an problm* here and a mistaek too.\n\n- I saw teh list.\n";
+const W25_TXT: &str = "There is a tset here.\nAnd a wrod too.\n";
+
+/// The server path beyond `eval_server`: a Markdown document and a plain one open at once; two ignores
+/// in a row in the first; the code actions at an ignored lint; a paragraph appended; an ignore in the
+/// second. Every step: the document's next publication is its previous one minus exactly the ignored
+/// diagnostic, and the other document's publication does not change.
+fn w25_server(sess: &mut Session, ctx: &Ctx) -> Result<(), crate::lsclient::LsError> {
+    use crate::lsclient::*;
+    set_home(&ctx.out.join("c14-home-w25"));
+    let cfg = json!({"harper-ls": {}});
+    let (ua, ub) = ("file:///c14-w25/a.md".to_string(), "file:///c14-w25/b.txt".to_string());
+    let inp = json!({"kind": "server-w25"});
+    let mut ls = LsSession::start()?;
+    ls.initialize(&cfg)?;
+    ls.notify("textDocument/didOpen", did_open(&ua, "markdown", W25_MD))?;
+    ls.notify("textDocument/didOpen", did_open(&ub, "plaintext", W25_TXT))?;
+    ls.quiesce(&cfg)?;
+    let pos_of = |text: &str, word: &str| -> Option<(usize, usize)> {
+        let at = text.find(word)?;
+        Some((text[..at].matches('\n').count(), at - text[..at].rfind('\n').map(|i| i + 1).unwrap_or(0)))
+    };
+    let minus = |all: &[String], prefix: &str| -> (Vec<String>, usize) {
+        let mut v = all.to_vec();
+        let n = v.iter().filter(|x| x.starts_with(prefix)).count();
+        if let Some(i) = v.iter().position(|x| x.starts_with(prefix)) {
+            v.remove(i);
+        }
+        (v, n)
+    };
+    let mut pa = ls.last_publication(&ua).map(show_pub).unwrap_or_default();
+    let mut pb = ls.last_publication(&ub).map(show_pub).unwrap_or_default();
+    sess.monitor("w25: the server reports lints in both open documents", pa.len() >= 3 && pb.len() >= 2);
+    let mut ignored: Vec<String> = vec![];
+    let steps: [(&str, &str, &str); 3] = [(&ua, W25_MD, "problm"), (&ua, W25_MD, "mistaek"), (&ub, W25_TXT, "wrod")];
+    for (uri, text, word) in steps {
+        let Some((line, col)) = pos_of(text, word) else { continue };
+        let params = json!({"textDocument": {"uri": uri}, "range": {"start": {"line": line, "character": col + 1}, "end": {"line": line, "character": col + 1}}, "context": {"diagnostics": []}});
+        let resp = ls.request_sync("textDocument/codeAction", params.clone(), &cfg)?;
+        let mut cmds = vec![];
+        ignore_commands(&resp["result"], &mut cmds);
+        sess.monitor("a code action on a flagged word offers HarperIgnoreLint", !cmds.is_empty());
+        let Some(args) = cmds.first().cloned() else { continue };
+        ls.request_sync("workspace/executeCommand", json!({"command": "HarperIgnoreLint", "arguments": args}), &cfg)?;
+        ls.quiesce(&cfg)?;
+        let prefix = format!("{}:{}-", line, col);
+        let (mine, other, other_uri) = if uri == ua { (&mut pa, &pb, &ub) } else { (&mut pb, &pa, &ua) };
+        let (want, n) = minus(mine, &prefix);
+        let after = ls.last_publication(uri).map(show_pub).unwrap_or_default();
+        let other_now = ls.last_publication(other_uri).map(show_pub).unwrap_or_default();
+        sess.o();
+        sess.count("w25:server:ignore-step");
+        if n != 1 || after != want {
+            sess.fail("server-ignore-not-exact", format!("HarperIgnoreLint on {:?} in {}: published before {:?}, after {:?} — not the previous publication minus exactly the ignored diagnostic", word, uri, mine, after), inp.clone(), None);
+            ls.shutdown(&cfg)?;
+            return Ok(());
+        }
+        if &other_now != other {
+            sess.fail("server-ignore-leaks-to-other-document", format!("HarperIgnoreLint on {:?} in {}: the other open document went from {:?} to {:?}", word, uri, other, other_now), inp.clone(), None);
+            ls.shutdown(&cfg)?;
+            return Ok(());
+        }
+        ignored.extend(mine.iter().filter(|x| x.starts_with(&prefix)).cloned());
+        *mine = after;
+        sess.nontrivial(&format!("w25server|{}|{}", uri, word));
+        // clause 1 on the other observable: the code actions at the ignored lint no longer offer to ignore it
+        let resp = ls.request_sync("textDocument/codeAction", params, &cfg)?;
+        let mut cmds2 = vec![];
+        ignore_commands(&resp["result"], &mut cmds2);
+        sess.o();
+        if cmds2.iter().any(|c| c == &args) {
+            sess.fail("server-ignored-lint-still-actionable", format!("after HarperIgnoreLint on {:?} the code actions at that place still offer to ignore the same lint", word), inp.clone(), None);
+        }
+    }
+    // a paragraph appended to the Markdown document: what was ignored stays hidden, what was published stays
+    let moved = format!("{}\nA new paragraph is added at the very end.\n", W25_MD);
+    ls.notify("textDocument/didChange", did_change(&ua, 2, &moved))?;
+    ls.quiesce(&cfg)?;
+    let got = ls.last_publication(&ua).map(show_pub).unwrap_or_default();
+    sess.o();
+    if ignored.iter().any(|g| got.contains(g)) || !pa.iter().all(|d| got.contains(d)) {
+        sess.fail("server-ignore-edit-unstable", format!("a paragraph appended to the Markdown document: published {:?}; before {:?}; ignored {:?}", got, pa, ignored), inp.clone(), None);
+    }
+    // the same text again in the plain document
+    ls.notify("textDocument/didChange", did_change(&ub, 2, W25_TXT))?;
+    ls.quiesce(&cfg)?;
+    let again = ls.last_publication(&ub).map(show_pub).unwrap_or_default();
+    sess.o();
+    if again != pb {
+        sess.fail("server-ignore-forgotten", format!("the same text sent again: {:?} was published, {:?} right after the ignore", again, pb), inp, None);
+    }
+    ls.shutdown(&cfg)?;
+    Ok(())
+}
+
+fn w25_streams(sess: &mut Session, ctx: &Ctx, env: &mut Env, rng: &mut Rng, sents: &[String]) {
+    let thorough = ctx.tier == Tier::Thorough;
+    let t0 = std::time::Instant::now();
+    w25_core(sess, env, rng, sents, if thorough { 4000 } else { 260 });
+    sess.add("w25:wall-ms:core", t0.elapsed().as_millis() as u64);
+    let njs = if thorough { 600 } else { 60 };
+    for n in 0..njs {
+        let (t, md, fam) = crate::c16::w25_text(rng, sents, n);
+        if fam == "user-words-in-text" || t.contains('"') || t.contains('“') || t.contains('”') {
+            continue; // c14-quote-twin-loc is recorded on the core path
+        }
+        let d = ["American", "British", "Australian", "Canadian"][n % 4];
+        w25_js(sess, env, &t, md, d, rng.below(8));
+    }
+    for (i, t) in ["There is *an problm* here and a mistaek too.", "# An problm\n\nI saw a elephant in [an problm](http://a.b/c).", "- an problm\n- a elephant\n\n> an zqxv"].iter().enumerate() {
+        for k in 0..3 {
+            w25_js(sess, env, t, true, ["British", "Australian", "Canadian"][i % 3], k);
+        }
+    }
+    sess.add("w25:wall-ms:core+js", t0.elapsed().as_millis() as u64);
+    let ok = w25_server(sess, ctx).is_ok();
+    sess.monitor("the in-process language server completed the C14 sessions", ok);
+    sess.count("origin:server-session-w25");
+    sess.add("w25:wall-ms", t0.elapsed().as_millis() as u64);
+}
+
 pub fn run(ctx: &Ctx) {
     let mut sess = Session::new(ctx);
     let mut rng = Rng::new(ctx.seed);
     let mut env = Env::new();
     if let Some(v) = replay_input(ctx) {
         let text = v["text"].as_str().unwrap_or("").to_string();
+        if v["kind"] == "server-w25" || v["kind"] == "js-w25" {
+            if v["kind"] == "server-w25" {
+                let ok = w25_server(&mut sess, ctx).is_ok();
+                sess.monitor("the in-process language server completed the C14 sessions", ok);
+            } else {
+                w25_js(&mut sess, &env, &text, v["md"].as_bool().unwrap_or(false), v["dialect"].as_str().unwrap_or("American"), v["pick"].as_u64().unwrap_or(0) as usize);
+            }
+            sess.nontrivial("replay-a");
+            sess.nontrivial("replay-b");
+            sess.finish("replay of one recorded w25 server / JS input", false, json!({}));
+            return;
+        }
         if v["kind"] == "server" || v["kind"] == "js" {
             if v["kind"] == "server" {
                 let ok = eval_server(&mut sess, ctx, &text, v["flagged"].as_str().unwrap_or("")).is_ok();
@@ -954,6 +1275,8 @@ pub fn run(ctx: &Ctx) {
         eval_js(&mut sess, &t, &[]);
         sess.count("origin:js");
     }
+    // w25: the families, edits and call-site variants listed at `w25_streams`
+    w25_streams(&mut sess, ctx, &mut env, &mut rng, &sents);
     let nk = env.kinds.len();
     sess.finish(
         "corpus (witness of the recorded finding, the repository's ignore tests); every text of ≤3 (quick) / ≤4 (thorough) pieces over {an, apple, problm, \", ., a} × every single lint ignored, exhaustively; rule-test sentences (all rules on, plain English and Markdown) × random subsets of lints × direct / export-import / append × prepend / append / alter-a-far-word edits; the server's ignore path (codeAction → HarperIgnoreLint → executeCommand through the real Backend: next publication = previous minus exactly that diagnostic, stays hidden on re-send and behind a new first paragraph) and the JS API's (lint / ignore_lint / lint, export → import into a fresh linter). Non-trivial = some lint hidden and some kept, or an edit that leaves the ignored lint's windows untouched; distinct by (text, ignored ids, mode/edit).",
